@@ -620,7 +620,7 @@ func (i *interpreter) poisonPackage(initFn *ssa.Function, why string) {
 func skipInit(path string) bool {
 	switch path {
 	case "runtime", "internal/cpu", "internal/godebug", "runtime/debug", "runtime/pprof", "runtime/trace",
-		"net", "crypto/tls", "crypto/x509", "os/signal", "os/exec", "os/user",
+		"net", "crypto/tls", "crypto/x509", "os/signal", "os/user",
 		"testing", "flag", "expvar", "internal/testlog", "crypto/internal/fips140/check",
 		"golang.org/x/sys/cpu", "internal/syscall/unix", "vendor/golang.org/x/sys/cpu":
 		return true
